@@ -6,6 +6,7 @@
 #include "galois/graphs/Graph.h"
 #include "galois/graphs/LC_CSR_CSC_Graph.h"
 #include "galois/graphs/LC_InlineEdge_Graph.h"
+#include "galois/graphs/LC_InOut_Graph.h"
 #include "galois/graphs/LC_Linear_Graph.h"
 #include "galois/graphs/LC_Morph_Graph.h"
 #include <map>
@@ -136,8 +137,8 @@ int main() {
   int cap = tier() ? 16 : 8;
   int maxT = (int)vsim_param("maxthreads", 1, cap);
   Machine mc = draw_machine(maxT);
-  int layout = (int)vsim_param("layout", 0, 7);
-  static const char* ln[] = {"LC_CSR<uint32>", "LC_CSR<void>+numa", "LC_CSR_CSC", "LC_Linear", "LC_InlineEdge", "LC_Morph", "LC_CSR(arrays)", "LC_CSR<uint64>v2"};
+  int layout = (int)vsim_param("layout", 0, 8);
+  static const char* ln[] = {"LC_CSR<uint32>", "LC_CSR<void>+numa", "LC_CSR_CSC", "LC_Linear", "LC_InlineEdge", "LC_Morph", "LC_CSR(arrays)", "LC_CSR<uint64>v2", "LC_InOut<LC_CSR>"};
   vsim_note("component", "layout=%s", ln[layout]);
   vsim_enable_fault(VF_COND_SPURIOUS, 0.05, 0.4);
   vsim_enable_fault(VF_PLAIN_PREEMPT, 0.02, 0.6);   // plain shared data of the library (behind locks, in shared helper state) becomes preemptible
@@ -193,6 +194,38 @@ int main() {
     uint64_t e = 0;
     for (uint32_t n = 0; n < m.n; n++) { for (auto& ed : model[n]) { g.constructEdge(e, ed.first, (uint32_t)ed.second); e++; } g.fixEndEdge(n, e); }
     check_exact(g, m, ln[layout]); csr_views(g, m, ln[layout]);
+    break; }
+  case 8: {
+    // in/out layout: out-edges from the file, in-edges from a second (transposed) file written by the harness,
+    // or -- one-file form -- the graph's own edges (the caller asserts the input is symmetric)
+    using Gr = LC_InOut_Graph<LC_CSR_Graph<int, uint32_t>::with_no_lockable<true>::type>; Gr g;
+    bool two = wl_chance(70);
+    gr::Model mt; mt.n = m.n;
+    { std::vector<gr::Edge> es; for (auto& e : m.edges) es.push_back({e.dst, e.src, e.data});
+      std::stable_sort(es.begin(), es.end(), [](const gr::Edge& a, const gr::Edge& b) { return a.src < b.src; });
+      mt.edges = es; mt.end.assign(m.n, 0); for (auto& e : mt.edges) mt.end[e.src]++; for (uint32_t i = 1; i < m.n; i++) mt.end[i] += mt.end[i - 1]; }
+    std::string tpath = std::string(vsim_workdir()) + "/gt.gr";
+    if (two) { gr::write_file(tpath, gr::encode(mt, (int)wl_range(1, 2), se)); readGraph(g, path, tpath); } else readGraph(g, path);
+    vsim_note("plan", "inout form=%s", two ? "two files" : "one file");
+    check_exact(g, m, ln[layout]); check_local_ranges(g, m, ln[layout]);
+    auto in = two ? by_dst(m) : std::vector<MS>();
+    if (!two) { auto o = by_src(m); in.resize(m.n); for (uint32_t i = 0; i < m.n; i++) in[i] = MS(o[i].begin(), o[i].end()); }
+    for (int pass = 0; pass < 2; pass++) {
+      uint32_t i = 0;
+      for (auto n : g) {
+        MS got; uint32_t prev = 0; bool first = true;
+        for (auto e : g.in_edges(n, U)) {
+          uint32_t d = (uint32_t)g.getData(g.getInEdgeDst(e), U); got.insert({d, (uint64_t)g.getInEdgeData(e)});
+          if (pass && !first && d < prev) vsim_fail("c11.sort", "%s: in-edges of node %u not sorted by source after sortAllInEdgesByDst", ln[layout], i);
+          prev = d; first = false;
+        }
+        if (got != in[i]) vsim_fail("c11.in-edges", "%s (%d threads, %s, pass %d): node %u has %zu in-edges, the input has %zu edges into it (or different ones)", ln[layout], nthr, two ? "two files" : "one file", pass, i, got.size(), in[i].size());
+        if ((size_t)std::distance(g.in_edge_begin(n, U), g.in_edge_end(n, U)) != in[i].size()) vsim_fail("c11.in-edges", "%s: in-degree of node %u is wrong", ln[layout], i);
+        i++;
+      }
+      if (pass == 0) g.sortAllInEdgesByDst(U);
+    }
+    if (two) check_exact(g, m, ln[layout]);   // sorting the in-edges leaves the out-edges alone
     break; }
   default: { using Gr = LC_CSR_Graph<int, uint64_t>::with_no_lockable<true>::type; Gr g; readGraph(g, path); check_exact(g, m, ln[layout]); csr_views(g, m, ln[layout]); break; }
   }
